@@ -193,6 +193,26 @@ def replay_case(st, idx):
                     viol("base:default-beta", "compute_logw_and_logz() differs from compute_logw_and_logz(1.0)")
         for k, wht in g:
             viol(k, wht)
+        # ---- targets OFF the specification's grid (0.3, 0.77, and just below 1: 1 - 2^-14, 1 - 2^-20).  The oracle there is the
+        # independent reference of the formula (vlib.psrun.ref_logw_logz, also used by the recorded runs' RW_RefAgrees / TM_Evidence),
+        # which is first VALIDATED on this very case against the specification's rationals at the grid target
+        from vlib.psrun import ref_logw_logz
+
+        bl = [np.array(ks, dtype=float) * LN2 for ks in ks_b]
+        zl = [b["m"] * LN2 for b in hist]
+        rw, rz = ref_logw_logz(bl, betas, zl, beta_f)
+        if not (float(np.max(np.abs(np.exp(rw) / W_exp - 1.0))) <= REL and abs(math.exp(rz) / z_exp - 1.0) <= REL):
+            raise RuntimeError(f"the reference of the MIS formula disagrees with MISWeights.tla on {case}")
+        for tgt in (0.3, 0.77, 1.0 - 2.0 ** -14, 1.0 - 2.0 ** -20):
+            lw_t, lz_t = sm.compute_logw_and_logz(tgt)
+            rw, rz = ref_logw_logz(bl, betas, zl, tgt)
+            evals += 1
+            et = max(float(np.max(np.abs(np.asarray(lw_t, dtype=float) - rw))), abs(float(lz_t) - rz))
+            if not et <= REL:
+                viol("offgrid:target", f"target beta {tgt!r}: log-weights / evidence differ from the formula by {et:.3g} (history {case['hist']})", {"target": tgt})
+                break
+    except RuntimeError:
+        raise
     except Exception as ex:  # an exception is an outcome the spec does not have
         viol("base:raised", f"raised {ex!r}")
 
